@@ -49,3 +49,37 @@ RULE = ("API histories (create; put/rm/mkdir/mkdirs/rmall with sizes on the 64-b
         "(the model renders header, FAT, DIFAT, MiniFAT, directory and data sectors, stale bytes of freed sectors included) and the allocator "
         "caches (num_sectors, fat.len, free_sectors in order, minifat.len, free_mini_sectors in order, dir_entries.len, MiniFAT start, mini stream start/len; hook H3) are compared. "
         "distinct = distinct FNV hashes of history text")
+
+
+def layout_lockstep(ctx, lops, limp, lmod, lspec):
+    """Foreign layouts (harness `layout --ops/--impl`): the two-level model is loaded from each image
+    (Phys.ofImage) and must reproduce the file (length + hash) and the allocator caches after the load and
+    after every API call; SpecCheck judges the image after every call.  Returns the number of lines compared."""
+    import os, shutil
+    evaluations = 0
+    # the two-level model loaded from each foreign image (Phys.ofImage), then the same API calls:
+    # file image (length + hash) and allocator caches after the load and after every call
+    if os.path.exists(lops):
+        C.driver(["phys", "--spec", lspec], lops, lmod)
+        lo, la, lb = open(lops).read().splitlines(), open(limp).read().splitlines(), open(lmod).read().splitlines()
+        lv = open(lspec).read().splitlines()
+        evaluations += len(lo)
+        start, shown = 0, 0
+        for i, (o, a, b) in enumerate(zip(lo, la, lb)):
+            if o.startswith("load "):
+                start = i
+            if a != b and shown < 3 and not any(x.get("first_line") == start for x in ctx.disagreements):
+                shown += 1
+                img = o.split(" ")[1] if o.startswith("load ") else lo[start].split(" ")[1]
+                keep = os.path.join(ctx.replaydir, "layout_lockstep_%d.cfb" % start)
+                if os.path.exists(img):
+                    shutil.copy(img, keep)
+                ctx.disagreements.append({"origin": "layout history starting at line %d (%s)" % (start, keep), "first_line": start, "level": "P", "history": [l[:120] for l in lo[start:i + 1]],
+                                          "implementation": a[-220:], "model": b[-220:], "theorem": "CfbVerif.Props.C04 (Phys.ofImage / Phys.pstep on a foreign layout no longer correspond to the library)"})
+            elif a == b and i < len(lv) and lv[i].startswith("bad ") and not o.startswith("load "):
+                keep = os.path.join(ctx.replaydir, "layout_mutated_illformed_%d.cfb" % start)
+                if os.path.exists(lo[start].split(" ")[1]):
+                    shutil.copy(lo[start].split(" ")[1], keep)
+                C.add_violation(ctx, "mutate:spec:" + re.sub(r"\d+", "N", lv[i][4:60]).replace(" ", "_"), "a foreign layout mutated through the API is no longer well-formed: " + lv[i][4:300],
+                                "# C04 (keeps C03): %s\n# foreign image kept as %s; calls applied to it:\n%s\n" % (lv[i][4:1500], keep, "\n".join(lo[start + 1:i + 1])))
+    return evaluations
